@@ -24,6 +24,9 @@ AddrLine(n, e) ==
                      "independent-decoder-disagrees", [enc |-> e.enc])
           /\ Require(e.back.err = 0 /\ e.back.ip = NormIP(e.ip) /\ e.back.port = e.port, n, "round-trip",
                      [src |-> e.src, atype |-> e.atype, want_ip |-> NormIP(e.ip), want_port |-> e.port, got |-> e.back])
+          \* the same value must come back whatever the getter held before (4-byte / 16-byte address)
+          /\ Require(e.back4 = e.back /\ e.back16 = e.back, n, "round-trip-into-reused-getter",
+                     [atype |-> e.atype, fam |-> e.fam, fresh |-> e.back, after4 |-> e.back4, after16 |-> e.back16])
 
 TextLine(n, e) ==
   /\ Require(e.adderr = 0, n, "setter-refused-valid-value", [atype |-> e.atype, len |-> Len(e.val)])
@@ -50,6 +53,7 @@ UnkLine(n, e) ==
        /\ Require(e.back.err = 0 /\ e.back.list = e.list, n, "round-trip",
                   [src |-> e.src, kind |-> "UNKNOWN-ATTRIBUTES", entries |-> Len(e.list), got_err |-> e.back.err,
                    got_entries |-> Len(e.back.list)])
+       /\ Require(e.back_reused = e.back, n, "round-trip-into-reused-getter", [kind |-> "UNKNOWN-ATTRIBUTES", entries |-> Len(e.list)])
 
 CheckLine(n, e) ==
   CASE e.k = "addr"  -> AddrLine(n, e)
